@@ -63,6 +63,7 @@ class Contract:
         self.chars_iters = []
         self.box_dyn = []
         self.map_collect = None
+        self.into_collect = None
         self.let_types = {}
         self.rename_types = {}
         self.loop_iter = {}
@@ -135,6 +136,9 @@ def parse_contracts(path):
             last = None
         elif word == 'chars_iters':
             cur.chars_iters = rest.split()
+            last = None
+        elif word == 'into_collect':
+            cur.into_collect = rest.strip()
             last = None
         elif word == 'map_collect':
             cur.map_collect = rest.strip()
@@ -613,6 +617,12 @@ def rewrite_map_collect(b, boundary, key, rel, base_line, log):
         if depth:
             raise ExtractError('fn %s: unbalanced map( .. )' % key)
         closure = b[m.end():k - 1].strip()
+        mp = re.match(r'^\|\s*\(([^()|]*)\)\s*\|(.*)$', closure, re.S)
+        if mp:
+            # R22: a closure whose parameter is a tuple pattern: `|(a, b)| e` -> `|p_r22| { let (a, b) = p_r22; e }`
+            # (Verus supports only variables as closure parameters; the desugaring is the language's own meaning of the pattern)
+            closure = '|p_r22| { let (%s) = p_r22; %s }' % (mp.group(1).strip(), mp.group(2).strip())
+            log.append({'rule': 'R22', 'where': '%s:%d' % (rel, base_line + b.count('\n', 0, m.start())), 'text': '|(%s)| e -> |p_r22| { let (%s) = p_r22; e }' % (mp.group(1).strip(), mp.group(1).strip())})
         m2 = re.match(r'\s*\.\s*collect\s*\(\s*\)', b[k:])
         if not m2:
             raise ExtractError('fn %s: .into_iter().map(..) not followed by .collect() (R21 does not apply)' % key)
@@ -625,7 +635,7 @@ def rewrite_map_collect(b, boundary, key, rel, base_line, log):
     return b
 
 
-def annotate_closures(body, overrides, rel, base_line, log):
+def annotate_closures(body, overrides, rel, base_line, log, n0=0, counter=None):
     """G2: give closures a ghost `-> (o: T) ensures ...` annotation (Verus treats an un-annotated closure as
     opaque).  Only closures in argument position whose body is a single constructor application or a single
     call of a function listed in closure_types.txt are annotated automatically; `overrides` (from the contract,
@@ -633,7 +643,7 @@ def annotate_closures(body, overrides, rel, base_line, log):
     toks = rsscan.tokenize(body)
     sig = rsscan.sig(toks)
     edits = []
-    n = 0
+    n = n0
     p = 0
     while p < len(sig):
         t = toks[sig[p]]
@@ -681,8 +691,17 @@ def annotate_closures(body, overrides, rel, base_line, log):
             inner = body[bstart:bend].strip()
             nxt = r
         ann = None
-        if n in overrides:
-            ann = overrides[n]
+        n_outer = n
+        inner_ann = inner
+        if '|' in inner:
+            # closures nested in this closure's body are numbered after it, in source order
+            cnt = [n]
+            inner_ann = annotate_closures(inner, overrides, rel, base_line + body.count('\n', 0, bstart), log, n0=n, counter=cnt)
+            n = cnt[0]
+            if inner_ann != inner and n_outer not in overrides:
+                raise ExtractError('closure %d contains annotated closures but has no annotation itself' % n_outer)
+        if n_outer in overrides:
+            ann = overrides[n_outer]
         else:
             m = re.match(r'^((?:[A-Za-z_][A-Za-z0-9_]*::)+)([A-Za-z_][A-Za-z0-9_]*)\s*\((.*)\)$', inner, re.S)
             if m and pure_args(m.group(3)):
@@ -690,20 +709,22 @@ def annotate_closures(body, overrides, rel, base_line, log):
                 args = m.group(3).strip()
                 if m.group(2)[0].isupper() and path not in fn_ret_table():
                     ty = m.group(1)[:-2]
-                    ann = '-> (o_c%d: %s) ensures o_c%d == %s' % (n, ty, n, inner)
+                    ann = '-> (o_c%d: %s) ensures o_c%d == %s' % (n_outer, ty, n_outer, inner)
                 elif path in fn_ret_table():
                     tup = '(%s,)' % args if args else '()'
-                    ann = '-> (o_c%d: %s) ensures call_ensures(%s, %s, o_c%d)' % (n, fn_ret_table()[path], path, tup, n)
-        if ann is None and n not in overrides:
+                    ann = '-> (o_c%d: %s) ensures call_ensures(%s, %s, o_c%d)' % (n_outer, fn_ret_table()[path], path, tup, n_outer)
+        if ann is None and n_outer not in overrides:
             m = re.match(r'^((?:[A-Za-z_][A-Za-z0-9_]*::)+)([A-Z][A-Za-z0-9_]*)$', inner)
             if m:
-                ann = '-> (o_c%d: %s) ensures o_c%d == %s' % (n, m.group(1)[:-2], n, inner)
+                ann = '-> (o_c%d: %s) ensures o_c%d == %s' % (n_outer, m.group(1)[:-2], n_outer, inner)
         if ann is not None:
-            edits.append((bstart, bend, '%s { %s }' % (ann, inner)))
-            log.append({'rule': 'G2', 'where': '%s:%d' % (rel, base_line + body.count('\n', 0, t[2])), 'text': 'closure %d: %s' % (n, ann)})
+            edits.append((bstart, bend, '%s { %s }' % (ann, inner_ann)))
+            log.append({'rule': 'G2', 'where': '%s:%d' % (rel, base_line + body.count('\n', 0, t[2])), 'text': 'closure %d: %s' % (n_outer, ann)})
         p = nxt
     for s_, e_, r_ in sorted(edits, reverse=True):
         body = body[:s_] + r_ + body[e_:]
+    if counter is not None:
+        counter[0] = n
     return body
 
 
@@ -1138,6 +1159,12 @@ class Assembler:
             b = apply_rewrites(b, c.src, base_line, log)
             if c.map_collect:
                 b = rewrite_map_collect(b, c.map_collect, key, c.src, base_line, log)
+            if c.into_collect:
+                # R21 (variant without `map`): `<ident>.into_iter().collect()` -> `<boundary>(<ident>)`
+                b, n21 = re.subn(r'\b([A-Za-z_][A-Za-z0-9_]*)\s*\.\s*into_iter\s*\(\s*\)\s*\.\s*collect\s*\(\s*\)', lambda m: '%s(%s)' % (c.into_collect, m.group(1)), b)
+                if n21 != 1:
+                    raise ExtractError('lost anchor: fn %s: %d `.into_iter().collect()` chains (R21)' % (key, n21))
+                log.append({'rule': 'R21', 'where': '%s:%d' % (c.src, base_line), 'text': 'x.into_iter().collect() -> %s(x)' % c.into_collect})
             b = annotate_closures(b, c.closures, c.src, base_line, log)
             if c.rename_types:
                 b = rename_idents(b, c.rename_types)
